@@ -19,13 +19,6 @@ namespace Dulwich.Props.C06
 open Dulwich Dulwich.ReceivePack
 open Dulwich.Gen.ReceivePack (okMsg unpackName atomicCap)
 
-/-- "the push reports success for ref `n`": no exception escaped the handler and the status entry for `n`
-(after the `unpack` entry) is `ok`. -/
-abbrev reportedOk (o : Outcome) (n : Name) : Prop :=
-  o.raised = none ∧ (o.status.drop 1).lookup n = some okMsg
-
-abbrev distinctNames (cmds : List Cmd) : Prop := (cmds.map (·.name)).Nodup
-
 /-! ## 0. which behaviour the source has -/
 
 /-- The translator found one of the two behaviours the theorems below talk about (all three switches off:
@@ -45,40 +38,6 @@ def StatusIffChangedStatement (fl : Flags) : Prop :=
       (reportedOk (applyPack fl env caps s u cmds) c.name → (applyPack fl env caps s u cmds).srv.refs c.name = c.target) ∧
       (c.old ≠ c.new → cur s.refs c.name = c.old →
         (applyPack fl env caps s u cmds).srv.refs c.name = c.target → reportedOk (applyPack fl env caps s u cmds) c.name)
-
-/-- per-command relation between status, ref before and ref after, for `_apply_pack` -/
-theorem applyPack_cmd (fl : Flags) (env : Env) (caps : List Bytes) (s : Srv) (u : Unpack) (cmds : List Cmd)
-    (hs : HookSane env) (hnd : distinctNames cmds) (hr : (applyPack fl env caps s u cmds).raised = none) :
-    ∀ c ∈ cmds,
-      ((applyPack fl env caps s u cmds).srv.refs c.name = s.refs c.name ∧
-        ¬ reportedOk (applyPack fl env caps s u cmds) c.name) ∨
-      ∃ m, ((applyPack fl env caps s u cmds).status.drop 1).lookup c.name = some m ∧
-        CmdResult fl s.refs (storeAfterUnpack s u cmds) ((applyPack fl env caps s u cmds).srv.refs c.name) c m := by
-  intro c hc
-  rcases applyPack_cases fl env caps s u cmds with h | ⟨h1, h2⟩
-  · right
-    rw [h] at hr ⊢
-    simp only at hr
-    exact refLoop_cmd fl env caps hs ⟨s.refs, storeAfterUnpack s u cmds⟩ cmds hnd hr c hc
-  · left
-    refine ⟨by rw [h1], ?_⟩
-    rintro ⟨_, h⟩
-    rw [h2] at h
-    cases h
-
-theorem target_ne_of_match {r : Refs} {c : Cmd} (hm : cur r c.name = c.old) (hne : c.old ≠ c.new) :
-    r c.name ≠ c.target := by
-  intro e
-  unfold cur at hm
-  unfold Cmd.target at e
-  split at e
-  · rename_i hz
-    rw [e] at hm
-    simp only at hm
-    exact hne (by rw [← hm]; exact (by simpa [isZero] using hz : c.new = zeroSha).symm)
-  · rw [e] at hm
-    simp only at hm
-    exact hne hm.symm
 
 /-- (i) PARTIAL, any flags — in particular the code as it is: for a command whose old value matches the
 ref, `ok` is reported exactly when the ref now holds the requested value.  Missing for the full statement:
@@ -139,8 +98,6 @@ def srv1 : Srv := ⟨fun n => if n = nM then some idB else none, fun i => i = id
 def staleCmd : Cmd := ⟨idA, idC, nM⟩
 /-- create `x = c` -/
 def createX : Cmd := ⟨zeroSha, idC, nX⟩
-
-theorem quiet_sane : HookSane Env.quiet := fun _ => by simp [Env.quiet]
 
 /-- As coded, the stale command `m: a → c` against `m = b` is answered `ok m` while `m` is still `b`
 (F5, first part). -/
@@ -216,31 +173,18 @@ def RefsPointIntoStoreStatement (fl : Flags) : Prop :=
   ∀ (env : Env) (caps : List Bytes) (s : Srv) (u : Unpack) (cmds : List Cmd),
     HookSane env → RefsInStore s → RefsInStore (applyPack fl env caps s u cmds).srv
 
-/-- general form: the invariant is preserved when every new value that is not checked by the code is in the
-store after unpacking -/
-theorem refs_point_into_store_gen (fl : Flags) (env : Env) (caps : List Bytes) (s : Srv) (u : Unpack)
-    (cmds : List Cmd) (hs : HookSane env) (hi : RefsInStore s)
-    (hnew : ∀ c ∈ cmds, isZero c.new = false → fl.checkNew = false → storeAfterUnpack s u cmds c.new = true) :
-    RefsInStore (applyPack fl env caps s u cmds).srv := by
-  rcases applyPack_cases fl env caps s u cmds with h | ⟨h1, _⟩
-  · rw [h]
-    apply refLoop_inStore fl env caps hs ⟨s.refs, storeAfterUnpack s u cmds⟩ cmds hnew
-    intro n v hv
-    exact storeAfterUnpack_mono s u cmds v (hi n v hv)
-  · rw [h1]; exact hi
-
 /-- PARTIAL, as coded: holds when the client only names new values that are in the store once its pack is
 unpacked.  Missing: commands naming an object the server does not have (`refs_point_into_store_counterexample`). -/
 theorem refs_point_into_store_partial (fl : Flags) (env : Env) (caps : List Bytes) (s : Srv) (u : Unpack)
     (cmds : List Cmd) (hs : HookSane env) (hi : RefsInStore s)
     (hnew : ∀ c ∈ cmds, isZero c.new = false → storeAfterUnpack s u cmds c.new = true) :
     RefsInStore (applyPack fl env caps s u cmds).srv :=
-  refs_point_into_store_gen fl env caps s u cmds hs hi (fun c hc hz _ => hnew c hc hz)
+  applyPack_inStore_gen fl env caps s u cmds hs hi (fun c hc hz _ => hnew c hc hz)
 
 theorem refs_point_into_store_of_checkNew (fl : Flags) (hck : fl.checkNew = true) :
     RefsPointIntoStoreStatement fl := by
   intro env caps s u cmds hs hi
-  apply refs_point_into_store_gen fl env caps s u cmds hs hi
+  apply applyPack_inStore_gen fl env caps s u cmds hs hi
   intro c _ _ h
   rw [hck] at h
   cases h
@@ -269,17 +213,6 @@ def AtomicAllOrNoneStatement (fl : Flags) : Prop :=
     (applyPack fl env caps s u cmds).srv.refs = s.refs ∨
       ∀ c ∈ cmds, (applyPack fl env caps s u cmds).srv.refs c.name = c.target
 
-theorem atomic_gen (fl : Flags) (env : Env) (caps : List Bytes) (s : Srv) (u : Unpack) (cmds : List Cmd)
-    (hat : caps.contains atomicCap = true) (hnd : distinctNames cmds) (hf : ∀ c ∈ cmds, env.fault c.name = none)
-    (happ : (fl.atomicOld = true ∧ fl.checkNew = true) ∨
-      ∀ c ∈ cmds, cur s.refs c.name = c.old ∧ (isZero c.new = false → storeAfterUnpack s u cmds c.new = true)) :
-    (applyPack fl env caps s u cmds).srv.refs = s.refs ∨
-      ∀ c ∈ cmds, (applyPack fl env caps s u cmds).srv.refs c.name = c.target := by
-  rcases applyPack_cases fl env caps s u cmds with h | ⟨h1, _⟩
-  · rw [h]
-    exact refLoop_atomic fl env caps ⟨s.refs, storeAfterUnpack s u cmds⟩ cmds hat hnd hf happ
-  · left; rw [h1]
-
 /-- PARTIAL, any flags — the code as it is: all-or-nothing holds when every command names the current old
 value and an object the server has after unpacking (then only hooks can fail, and those are validated
 first).  Missing: a stale old value or a missing object among the commands
@@ -290,14 +223,14 @@ theorem atomic_all_or_none_partial (fl : Flags) (env : Env) (caps : List Bytes) 
     (happ : ∀ c ∈ cmds, cur s.refs c.name = c.old ∧ (isZero c.new = false → storeAfterUnpack s u cmds c.new = true)) :
     (applyPack fl env caps s u cmds).srv.refs = s.refs ∨
       ∀ c ∈ cmds, (applyPack fl env caps s u cmds).srv.refs c.name = c.target :=
-  atomic_gen fl env caps s u cmds hat hnd hf (Or.inr happ)
+  applyPack_atomic_gen fl env caps s u cmds hat hnd hf (Or.inr happ)
 
 /-- FULL statement for the repaired behaviour (old values and new objects validated before anything is
 applied).  The hypothesis "no I/O failure while applying" (`env.fault … = none`) is part of the statement:
 neither the code nor the proposed fix rolls back. -/
 theorem atomic_all_or_none_repaired : AtomicAllOrNoneStatement Flags.repaired := by
   intro env caps s u cmds hat hnd hf
-  exact atomic_gen Flags.repaired env caps s u cmds hat hnd hf (Or.inl ⟨rfl, rfl⟩)
+  exact applyPack_atomic_gen Flags.repaired env caps s u cmds hat hnd hf (Or.inl ⟨rfl, rfl⟩)
 
 /-- As coded, `atomic` with `[create x = c, stale m: a → c]` applies the first and not the second
 (F5, third part). -/
@@ -351,5 +284,135 @@ theorem bad_refname_aborts_counterexample :
     let o := applyPack Flags.unrepaired env [] srv0 (.ok [idC]) [createX, ⟨zeroSha, idC, nM⟩]
     o.raised = some .refError ∧ o.srv.refs nX = createX.target ∧ ¬ reportedOk o nX := by
   decide
+
+/-! ## 6. the status report: what `_report_status` writes is what `ReportStatusParser` reads -/
+
+/-- For every status list `_apply_pack` can yield after a successful unpack — ref names without whitespace,
+messages `ok` or with non-blank ends — the client's `check()` on the lines `_report_status` writes returns
+exactly one entry per status, in order, `None` for `ok` and the message otherwise.  The line formats, the
+`unpack`/`ok`/`ng` keywords and the separator are the literals read from the source; changing any of them
+on one side only breaks this proof. -/
+theorem report_parse_roundtrip (st : List (Bytes × Bytes))
+    (h : ∀ p ∈ st, CleanName p.1 ∧ (p.2 = okMsg ∨ CleanMsg p.2)) :
+    clientParse (reportStatus ((unpackName, okMsg) :: st)) = .ok (st.map clientStatus) := by
+  unfold clientParse reportStatus
+  have h0 : Parser.feed {} (((unpackName, okMsg) :: st).map (fun p => some (statusLine p)) ++ [none]) =
+      .ok { done := true, packStatus := some Gen.ReceivePack.parserUnpackOk,
+            refStatuses := st.map (fun p => strip (statusLine p)) } := by
+    simp only [List.map_cons, List.cons_append, Parser.feed]
+    have hp : Parser.handlePacket {} (some (statusLine (unpackName, okMsg))) =
+        .ok { done := false, packStatus := some Gen.ReceivePack.parserUnpackOk, refStatuses := [] } := by decide
+    rw [hp]
+    simp only
+    have := feed_lines ⟨false, some Gen.ReceivePack.parserUnpackOk, []⟩ Gen.ReceivePack.parserUnpackOk rfl rfl
+      (st.map statusLine)
+    simp only [List.map_map, Function.comp_def, List.nil_append] at this
+    exact this
+  rw [h0]
+  simp only [Parser.check]
+  exact checkStatuses_report st h
+
+/-- non-vacuity: a two-entry report with an `ng` line -/
+example : clientParse (reportStatus [(unpackName, okMsg), (nM, okMsg), (nX, Gen.ReceivePack.failedWriteMsg)]) =
+    .ok [(nM, none), (nX, some Gen.ReceivePack.failedWriteMsg)] := by decide
+
+/-- `handle` writes the report exactly when the client asked for report-status and no exception escaped; a
+failed unpack is reported as such and read by the client as SendPackError. -/
+theorem unpack_failure_reported :
+    clientParse (reportStatus [(unpackName, unpackErrorMsg)]) = .error .sendPack := by decide
+
+/-! ## 7. the in-process path `LocalGitClient.send_pack` -/
+
+abbrev distinctLocal (cmds : List (Name × Id)) : Prop := (cmds.map (·.1)).Nodup
+
+/-- (iii) On the local path the recorded status is exact, for every snapshot `snap` the client read, every
+target state `t` at the time of the updates (so also when a second pusher moved refs in between), atomic or
+not: when a status list is returned, each command has one entry; success (`none`) is recorded exactly when
+the current value equals the old value the client read, and then the ref holds the requested value;
+otherwise the ref is untouched. -/
+theorem local_status_exact (snap : Refs) (t : LocalRepo) (atomic : Bool) (packIds have_ : List Id)
+    (cmds : List (Name × Id)) (hnd : distinctLocal cmds) (st : List (Name × Option LocalMsg))
+    (hst : (localSendPack snap t atomic packIds have_ cmds).2 = some st) :
+    ∀ c ∈ cmds, ∃ m, st.lookup c.1 = some m ∧
+        ((m = none ∧ cur t.refs c.1 = snapOld snap c.1 ∧
+            (localSendPack snap t atomic packIds have_ cmds).1.refs c.1 = localTarget c) ∨
+         (m ≠ none ∧ (localSendPack snap t atomic packIds have_ cmds).1.refs c.1 = t.refs c.1)) := by
+  unfold localSendPack at hst ⊢
+  simp only at hst ⊢
+  split at hst
+  · cases hst
+  · rename_i h1
+    rw [if_neg h1]
+    split at hst
+    · -- atomic pre-check failed: every entry is a failure, nothing applied
+      rename_i h2
+      rw [if_pos h2]
+      simp only [Option.some.injEq] at hst
+      subst hst
+      intro c hc
+      have hmem : c.1 ∈ (cmds.map (fun c => (c.1, localPrecheck snap { t with store := t.store.add packIds } c))).map (·.1) := by
+        simp only [List.map_map]
+        exact List.mem_map_of_mem (f := fun c => c.1) hc
+      obtain ⟨m, hm⟩ := lookup_map_some (fun (o : Option LocalMsg) => match o with | some m => m | none => LocalMsg.atomicFailed)
+        _ c.1 hmem
+      exact ⟨some m, hm, Or.inr ⟨by simp, rfl⟩⟩
+    · rename_i h2
+      rw [if_neg h2]
+      simp only [Option.some.injEq] at hst
+      subst hst
+      intro c hc
+      obtain ⟨m, hm, hres⟩ := localApply_exact snap { t with store := t.store.add packIds } cmds hnd c hc
+      refine ⟨m, hm, ?_⟩
+      rcases hres with ⟨h1, h2, h3⟩ | ⟨_, h2, h3⟩
+      · exact Or.inl ⟨h2, h1, h3⟩
+      · exact Or.inr ⟨h2, h3⟩
+
+/-- the early return (`ref_status={}`: nothing to do) leaves the target untouched -/
+theorem local_early_return_untouched (snap : Refs) (t : LocalRepo) (atomic : Bool) (packIds have_ : List Id)
+    (cmds : List (Name × Id)) (hst : (localSendPack snap t atomic packIds have_ cmds).2 = none) :
+    (localSendPack snap t atomic packIds have_ cmds).1.refs = t.refs := by
+  unfold localSendPack at hst ⊢
+  simp only at hst ⊢
+  split at hst
+  · rename_i h1
+    rw [if_pos h1]
+  · split at hst <;> cases hst
+
+/-- a stale command on the local path is rejected (complement of the above: success implies a match) -/
+theorem local_stale_rejected (snap : Refs) (t : LocalRepo) (cmds : List (Name × Id)) (hnd : distinctLocal cmds) :
+    ∀ c ∈ cmds, cur t.refs c.1 ≠ snapOld snap c.1 →
+      ∃ m, (localApply snap t cmds).2.lookup c.1 = some (some m) ∧ (localApply snap t cmds).1.refs c.1 = t.refs c.1 := by
+  intro c hc hst
+  obtain ⟨m, hm, hres⟩ := localApply_exact snap t cmds hnd c hc
+  rcases hres with ⟨h1, _, _⟩ | ⟨_, h2, h3⟩
+  · exact absurd h1 hst
+  · cases m with
+    | none => exact absurd rfl h2
+    | some m => exact ⟨m, hm, h3⟩
+
+/-- witnesses for the local path: the client read `m = b`; meanwhile a second pusher set `m = a` (loose ref) -/
+def snapB : Refs := fun n => if n = nM then some idB else none
+def racedRepo : LocalRepo := ⟨fun n => if n = nM then some idA else none, fun i => i = idA || i = idB || i = idC, fun _ => false⟩
+
+/-- `atomic=True` on the local path is not all-or-nothing when a second pusher moved a LOOSE ref between the
+client's read and its update: the pre-check asks `get_peeled`, which knows nothing about loose refs; `x` is
+created, `m` is rejected. -/
+theorem local_atomic_counterexample :
+    let r := localSendPack snapB racedRepo true [] [idB] [(nX, idC), (nM, idC)]
+    r.1.refs nX = some idC ∧ r.1.refs nM = some idA ∧
+    r.2 = some [(nX, none), (nM, some .unableToSet)] := by decide
+
+/-- the same race on a PACKED ref is caught by the pre-check: everything is rejected, nothing changes -/
+example :
+    let r := localSendPack snapB { racedRepo with packed := fun n => n = nM } true [] [idB] [(nX, idC), (nM, idC)]
+    r.1.refs nX = none ∧ r.1.refs nM = some idA ∧
+    r.2 = some [(nX, some .atomicFailed), (nM, some .unableToSet)] := by decide
+
+/-- the local path sets a ref to an object the target does not have when the caller's pack lacks it -/
+theorem local_refs_point_into_store_counterexample :
+    let t : LocalRepo := ⟨fun _ => none, fun _ => false, fun _ => false⟩
+    let r := localSendPack (fun _ => none) t false [] [] [(nX, idC)]
+    r.1.refs nX = some idC ∧ r.1.store idC = false := by decide
+
 
 end Dulwich.Props.C06
